@@ -174,6 +174,7 @@ type Exec struct {
 	recvStatic        types.Type
 	ghostGenN         int
 	curLoop           *loopCtx
+	tailStmt          ast.Stmt // the last statement of the function under contract when it is an if/switch
 	guards            []guardSpec
 	guardCount        map[*types.Var]int
 	applyTypes        map[string]types.Type // static types of lastarg(i)/lastres(i)
